@@ -5,6 +5,7 @@
   all lines exactly as coca's process-global state is in the harness process.
 -/
 import CocaVerif.Drv.Call
+import CocaVerif.Drv.Bs
 open Lean
 
 partial def loop {σ : Type} (h : IO.FS.Stream) (out : IO.FS.Stream) (step : σ → Json → σ × Json) (st : σ) : IO Unit := do
@@ -27,4 +28,5 @@ def main (args : List String) : IO UInt32 := do
   let stdout ← IO.getStdout
   match args with
   | ["call"] => loop stdin stdout CocaVerif.Drv.Call.step {}; return 0
+  | ["bs"] => loop stdin stdout CocaVerif.Drv.Bs.step (); return 0
   | _ => IO.eprintln "usage: driver <family>"; return 2
